@@ -328,6 +328,15 @@ def r3_implicit_operators(ctx) -> None:
                             if getattr(x, "lineno", 0) > c.lineno)
             if vcls in special:
                 r.ok("C01.R3", q, f"{call_name(c)}(...) for {vcls}: special-cased in compare_precedence", loc)
+            elif f.name == "convert_condition_field_eq_val_cidr" and q.startswith(TQ + "."):
+                # decided by interpreting the handler under every enclosing operator (shared with C18.R3)
+                from .c18 import cidr_conversion_table
+                gtbl = cidr_conversion_table(ctx)["grouping"]
+                if not gtbl:
+                    r.ok("C01.R3", q, f"{call_name(c)}(...) for {vcls}: handler groups its own result exactly when it is text, has several alternatives, was not folded into an in-expression and the enclosing operator binds tighter than OR (interpreted: 144 cases)", loc)
+                else:
+                    r.violation("C01.R3", q, f"grouping of the synthesised {call_name(c)[9:]}: {gtbl[0]}",
+                                f"{len(gtbl)} interpreted cases deviate: only the decision actually taken for the synthesised condition tells whether it became one atomic in-expression — a configuration flag alone does not (wildcard patterns are not folded when in_expressions_allow_wildcards is off), so the alternatives are emitted ungrouped under AND/NOT", loc)
             elif self_groups:
                 # the only admissible reasons not to group: a single alternative, the in-expression decision actually taken
                 # for the synthesised operator, an enclosing operator that does not bind tighter, no group template
